@@ -156,12 +156,12 @@ fn epoch_of_dir(dir: &str) -> u64 {
 
 thread_local! {
     static SNAPSHOT_MSGS: std::cell::RefCell<Vec<u64>> = const { std::cell::RefCell::new(Vec::new()) };
-    static DISTRO_MSGS: std::cell::RefCell<Vec<(u64, u64, Vec<String>)>> = const { std::cell::RefCell::new(Vec::new()) };
+    static DISTRO_MSGS: std::cell::RefCell<Vec<(u64, u64, Vec<String>, bool)>> = const { std::cell::RefCell::new(Vec::new()) };
 }
 
 /// (source node, simulated time in us) of every message that carries instances of the sender's clients (the 12 s client
 /// report SyncDistroClientInstances, update batches, single updates, snapshots) sent in this run
-pub fn naming_distro_msg_times() -> Vec<(u64, u64, Vec<String>)> {
+pub fn naming_distro_msg_times() -> Vec<(u64, u64, Vec<String>, bool)> {
     DISTRO_MSGS.with(|v| v.borrow().clone())
 }
 
@@ -246,7 +246,10 @@ fn install_transport() {
                     // (the periodic client report and every message that carries instances of the sender's clients)
                     // (messages that carry instances of the sender's clients and overwrite what the receiver holds; the periodic
                     // client report carries keys only - a receiver acts on it only for keys it does not have under that client)
-                    if sub == "SyncBatchInstances" || sub == "SyncUpdateInstance" || sub == "Snapshot" {
+                    // (the client report is recorded as well, marked: under injected delays a receiver that fetches what the report
+                    // names can overwrite a newer registration with the fetched copy)
+                    let is_report = sub == "SyncDistroClientInstances";
+                    if sub == "SyncBatchInstances" || sub == "SyncUpdateInstance" || sub == "Snapshot" || is_report {
                         // the addresses (10.x.y.z) the message mentions: strings and byte arrays of its JSON body
                         fn collect(v: &serde_json::Value, out: &mut Vec<u8>) {
                             match v {
@@ -292,7 +295,7 @@ fn install_transport() {
                                 i += 1;
                             }
                         }
-                        DISTRO_MSGS.with(|v| v.borrow_mut().push((src, sim::now_us(), ips)));
+                        DISTRO_MSGS.with(|v| v.borrow_mut().push((src, sim::now_us(), ips, is_report)));
                     }
                     if sub == "Snapshot" {
                         SNAPSHOT_MSGS.with(|v| v.borrow_mut().push(sim::now_us()));
